@@ -128,7 +128,7 @@ func runC17(ctx *Ctx) *Report {
 	modes := []string{"text", "text", "json", "dry"}
 	forests := forestsUpTo(n, []string{"a", "b.go"})
 	for i, f := range forests {
-		doc := spell(f, coveringSpellings()[i%24])
+		doc := spell(f, coveringSpellings()[i%len(coveringSpellings())])
 		c := wasmCase{Kind: "wasm", Mode: modes[i%4], Fmt: allFormats()[i%5], Exts: extLists[i%len(extLists)], Doc: hx(doc), Text: docText(doc)}
 		cases = append(cases, c)
 	}
@@ -151,6 +151,13 @@ func runC17(ctx *Ctx) *Report {
 	for _, d := range []string{"", "\n", "\n\n", "  \n", "  - x\n- a\n", "- a\n  - ..\n", "- a\n  - b/c\n", "- \xff\n", "- a\n      - deep\n"} {
 		for _, mode := range []string{"text", "json", "dry"} {
 			cases = append(cases, wasmCase{Kind: "wasm", Mode: mode, Fmt: fmtDefault, Doc: hxs(d), Text: docText([]byte(d))})
+		}
+	}
+	// rows around bufio's 64 KiB token limit: both variants must make the same decision
+	for _, n := range []int{65535, 65536, 70000, 200000} {
+		d := "- " + strings.Repeat("x", n-2) + "\n- b\n"
+		for _, mode := range []string{"text", "json", "dry"} {
+			cases = append(cases, wasmCase{Kind: "wasm", Mode: mode, Fmt: fmtDefault, Doc: hxs(d), Text: fmt.Sprintf("<row of %d bytes>", n)})
 		}
 	}
 	nr := 500
